@@ -1,5 +1,5 @@
 """C12 - a context keeps its own state: persistent, isolated, usable after errors (DESIGN 5/C12)."""
-import json, os, copy, time
+import json, os, copy, time, random
 from harness import tlc, engine
 from harness.common import Machinery, workdir, write_ndjson
 
@@ -175,6 +175,9 @@ def run(rep):
     T['replay'] = T['validate'] = 0.0
     # ---- replay on real contexts (probing everything after every step), then C->S trace validation; in chunks ----
     CH = 80000                       # the quick tier is one chunk
+    # the enumeration order is regular (kinds cycle with a period that shares factors with the number of child
+    # processes, so the expensive kinds pile up in a few of them): a fixed shuffle balances the children
+    random.Random(12).shuffle(cases)
     ntr = nev = 0
     keep = None                      # an accepted trace for the binding self-test
     for b in range(0, len(cases), CH):
